@@ -64,7 +64,7 @@ def gen(rng, simname):
             k = len(case["I0"])
             case["I0"] = list(range(k))
             case["R0"] = [i for i in case["R0"] if i >= k]
-    elif cont == "tuple" and case["graph"]["label"] in ("tuple", "fset"):
+    elif cont == "tuple" and case["graph"]["label"] in ("tuple", "fset", "falsy"):
         cont = "list"
     case["container"] = cont
     return case
@@ -249,7 +249,7 @@ def conflict_case(rng):
         case["I0"] = [0] if rng.random() < 0.7 else case["I0"]
     case["rho_conflict"] = rng.choice([0.0, 0.0, 0.1, 0.5, 1.0])
     case["container"] = rng.choice(["list", "node", "tuple", "set"]) if len(case["I0"]) == 1 else rng.choice(["list", "set"])
-    if case["container"] == "tuple" and spec["label"] in ("tuple", "fset"):
+    if case["container"] == "tuple" and spec["label"] in ("tuple", "fset", "falsy"):
         case["container"] = "list"
     case["R0"] = []
     return case
